@@ -155,6 +155,20 @@ def measure(job):
     yb = sp.nufft(xb, coord)
     y0 = np.stack([sp.nufft(xb[i], coord) for i in range(2)])
     out.append(("batch_exact", np.linalg.norm(yb - y0) / max(np.linalg.norm(y0), 1e-300), "batch axis"))
+    # ... and the adjoint with batch axes: one and two leading axes, output shape given and estimated from the coordinates
+    for nb in ([2], [2, 1]):
+        ybb = (rs.randn(*nb, npts) + 1j * rs.randn(*nb, npts))
+        flat_b = ybb.reshape(-1, npts)
+        zb = sp.nufft_adjoint(ybb, coord, oshape=nb + list(shape))
+        z0 = np.stack([sp.nufft_adjoint(flat_b[i], coord, oshape=shape) for i in range(len(flat_b))]).reshape(nb + list(shape))
+        out.append(("batch_exact", (np.linalg.norm(zb - z0) / max(np.linalg.norm(z0), 1e-300)) if zb.shape == z0.shape else 1.0, "nufft_adjoint with batch axes %s" % nb))
+        if min(sp.estimate_shape(coord)) < 1:
+            continue          # (coordinates spanning less than one grid unit give an empty estimated shape: not a usable call)
+        ze = sp.nufft_adjoint(ybb, coord)
+        z1 = np.stack([sp.nufft_adjoint(flat_b[i], coord) for i in range(len(flat_b))])
+        z1 = z1.reshape(nb + list(z1.shape[1:]))
+        out.append(("batch_exact", (np.linalg.norm(ze - z1) / max(np.linalg.norm(z1), 1e-300)) if ze.shape == z1.shape else 1.0,
+                    "nufft_adjoint with batch axes %s and the output shape estimated from the coordinates (got shape %s, per item %s)" % (nb, ze.shape, z1.shape)))
     for tz in (False, True):
         coord = pts.copy()
         c0 = coord.copy()
